@@ -1343,9 +1343,13 @@ class DocTest:
                             new_line = ','.join(tbparts)
 
                             # failed_ctx = '>>> ' + self.failed_part.exec_lines[tb_lineno - 1]
-                            failed_ctx = self.failed_part.orig_lines[tb_lineno - 1]
-                            extra = '    ' + failed_ctx
-                            line = (new_line + extra + '\n')
+                            orig_lines = self.failed_part.orig_lines
+                            if 0 < tb_lineno <= len(orig_lines):
+                                # Frames of helpers defined by earlier parts
+                                # share the filename but not the line range
+                                failed_ctx = orig_lines[tb_lineno - 1]
+                                extra = '    ' + failed_ctx
+                                line = (new_line + extra + '\n')
 
                         # m = '(t{})'.format(i)
                         # line = m + line.replace('\n', '\n' + m)
